@@ -15,9 +15,12 @@ import warnings
 
 def build_model(qv, gen, spec):
     kind, name, cont, scheme = spec["kind"], spec["model"], spec["container"], spec["scheme"]
-    from vt.checks.c17 import MODELS
+    from vt.checks.c17 import MODELS, HUGE
+    MODELS = dict(MODELS, **HUGE)
     D0 = MODELS[name]["terms"]
     n = 1 + max((i for k in D0 for i in k), default=0)
+    if name in HUGE:
+        return gen.build(cont, dict(D0)), None
     L = gen.labels_for(scheme, max(n, 2))
     D = {tuple(L[i] for i in k): v for k, v in D0.items()}
     if MODELS[name].get("stale"):
